@@ -71,7 +71,7 @@ def run(ctx, f, rep):
         changed_before_yield = {}
         held_over_yield = 0
         nyield_events = 0
-        for p in pathq.paths(f, co, max_visits=2):
+        for p in pathq.paths(f, co, max_visits=2, inline_async=True):
             dirty = []        # (event index, description)
             have_msg = None   # index where a Message item was taken
             for i, ev in enumerate(p.events):
